@@ -142,7 +142,9 @@ func runCLIOne(env *kernel.Env, scr, bin, pathDir string, ref progRef, reps int)
 				// keep the panic line, not the goroutine dump (addresses differ)
 				for _, line := range strings.Split(string(outb), "\n") {
 					if strings.HasPrefix(line, "panic:") {
-						status += " " + line
+						// (every run writes to a directory of its own: a message that
+						// names an output path is the same message)
+						status += " " + strings.ReplaceAll(line, outDir, "<out>")
 					}
 				}
 			}
